@@ -113,8 +113,12 @@ class SoftwareManager:
         :param software_class: The software class.
         """
         if software_class in self._software_class_to_name_map:
-            self.sys_log.warning(f"Cannot install {software_class} as it is already installed")
-            return
+            if software_config is None:
+                self.sys_log.warning(f"Cannot install {software_class} as it is already installed")
+                return
+            # installed again with a configuration (e.g. pre-installed software declared in a scenario file):
+            # replace the existing instance instead of keeping two
+            self.uninstall(self._software_class_to_name_map[software_class])
         if software_config is None:
             software = software_class(
                 software_manager=self,
@@ -144,6 +148,7 @@ class SoftwareManager:
         software.install()
         software.software_manager = self
         self.software[software.name] = software
+        self._software_class_to_name_map[software_class] = software.name
         self.port_protocol_mapping[(software.port, software.protocol)] = software
         if isinstance(software, Application):
             software.operating_state = ApplicationOperatingState.CLOSED
